@@ -21,6 +21,7 @@ EXTRA = {
  "C11": " For every other durable state the live-dictionary route first runs a continuation that is interrupted before its next checkpoint and then resumes AGAIN from the dictionary the caller still holds (found and led to the repair of a genuine defect). Real-flow scenarios in 2 and 3 dimensions.",
  "C12": " A quarter of the context scenarios do fit() inside the same auto_checkpoint context, another quarter make an earlier sampling call in it; 'loadable by the documented route' is executed for real (resume_from_file, then sample_posterior() with no arguments, on a scratch copy of the file) once per distinct durable state.",
  "C17": " BlackJAXSMC's own call sites run too (stand-in blackjax): the jax twin of the model checks that a log-prior is attached at trace time and, through jax.debug.callback, that it is the prior of exactly the points the compiled kernel evaluates.",
+ "C15": " Direct conversions are explored too: a seeded stateful machine over a pool of sample sets (every class x namespace x width x optional-field subset), each shadowed by a plain-array model, in which to_namespace(T) for every ordered pair and to_numpy() compose with select / concatenate / pickle / dict round trips and with each other; every converted set must equal the model incl. class, temperature, attached evidence, target namespace and the same float width (found three genuine defects, repaired).",
 }
 
 
@@ -63,9 +64,9 @@ CHECKS.update({
 
 
 CHECKS.update({
- "C15": dict(level="exploration", ref="DESIGN.md section 4 C15", technique="deterministic simulation: namespace x dtype swarm over whole runs incl. crash/restore; precision/namespace invariants at the model seam and on every recorded population; twin run with/without xp=",
-   text="PARTIAL claim: only what whole simulated runs observe. Every array handed to the user's callables and every population recorded, checkpointed, restored after a crash (bytes and resume_from_file routes; also when a FINISHED run is resumed; also the per-iteration diagnostics; also initial populations assembled from several proposal batches) and returned must have the requested float width and namespace; sample_posterior(xp=T) for all 9 ordered namespace pairs must succeed, keep values/fields/width; real zuko and flowjax proposal outputs must be consumable by importance and SMC sampling in every sample namespace (native and string dtype spellings).",
-   note="The direct-conversion grid over all sample classes and the dtype-spelling helpers is a pure function table and is not explored by this family (DESIGN.md section 5/9). CPU only; stub kernels."),
+ "C15": dict(level="exploration", ref="DESIGN.md section 4 C15", technique="deterministic simulation: namespace x dtype swarm over whole runs incl. crash/restore with precision/namespace invariants at the model seam and on every recorded population; twin run with/without xp=; seeded operation sequences (conversions composed with select/concatenate/pickle/dict) against a plain-array reference model",
+   text="Every array handed to the user's callables and every population recorded, checkpointed, restored after a crash (bytes and resume_from_file routes; also when a FINISHED run is resumed; also the per-iteration diagnostics; also initial populations assembled from several proposal batches) and returned must have the requested float width and namespace; sample_posterior(xp=T) for all 9 ordered namespace pairs must succeed, keep values/fields/width; real zuko and flowjax proposal outputs must be consumable by importance and SMC sampling in every sample namespace (native and string dtype spellings).",
+   note="The table of dtype SPELLINGS accepted by the dtype helpers is exercised only through the spellings runs are configured with (None, string, native object); the direct conversions themselves are explored by the operation machine. CPU only; stub kernels."),
 })
 
 
